@@ -9,6 +9,9 @@ self-check.
 from .layout import (ATTR_DECRYPT, ATTR_ENCRYPT, ENC_TPM2B, TAG_NO_SESSIONS, TAG_SESSIONS, disp, layout)
 
 HASH_SIZES = (20, 32, 48, 64)
+# payloads that look like the start of some other file format (TPM buffers carry arbitrary user data)
+MAGICS = (b"\x1f\x8b\x08", b"PK\x03\x04", b"\x0a\x0d\x0d\x0a", b"SWTPM_IO", b"BZh9", b"\xfd7zXZ\x00", b"\x28\xb5\x2f\xfd", b"\x7fELF",
+          b"%PDF", b"80 01 ", b"\xef\xbb\xbf", b"\xff\xfe", b"Ctrl")
 SMALL = (0, 1, 2, 3, 10, 127, 128, 129, 246, 254, 255, 256, 257, 32767, 32768, 65535, 65536,
          -1, -2, -3, -10, -127, -128, -129, -246, -255, -256, -257, -32768, -65536)
 
@@ -28,6 +31,7 @@ class Knobs:
         self.p_endpoint = 0.6
         self.max_nodes = 400
         self.p_text_tail = 0.12
+        self.p_magic = 0.04
         self.huge_buf = 0
         self.many = 0
         if rng is not None:
@@ -192,6 +196,9 @@ class Gen:
         if isinstance(bf["type"], dict):
             n = self.buf_size()
             elems = [("prim", bf["type"]["list"], self.value(bf["type"]["list"])) for _ in range(n)]
+            if n >= 3 and self.rng.random() < self.k.p_magic:
+                for j, b in enumerate(self.rng.choice(MAGICS)[:n]):
+                    elems[j] = ("prim", bf["type"]["list"], b)
             if n and self.rng.random() < self.k.p_text_tail:
                 # buffers carrying text: end in LF / CR LF / NUL / space (container front-ends must not care)
                 tail = self.rng.choice(((10,), (13, 10), (0,), (32,), (13,)))
